@@ -105,6 +105,21 @@ def main() -> int:
             for r in res:
                 report.add("S-selftest", f"selftest::{r[0]}", True if r[1] == "ok" else None, ("checker self-validation variant behaves as expected" if r[1] == "ok" else f"checker self-validation failed ({r[1]}): {r[2]}"), r[1], "ok", nontrivial=False)
 
+    # wall-clock budget: an analysis that does not finish is reported as undecided (exit 2), never left hanging
+    import signal
+
+    budget = int(os.environ.get("USA_TIME_BUDGET_S", "900" if tier == "quick" else "7200"))
+
+    def on_alarm(signum, frame):  # noqa: ARG001
+        print(f"ANALYSIS-ERROR property={prop} analysis exceeded its time budget of {budget}s (undecided)")
+        sys.stdout.flush()
+        os._exit(2)
+
+    try:
+        signal.signal(signal.SIGALRM, on_alarm)
+        signal.alarm(budget)
+    except Exception:
+        pass
     return run_check(prop, check_with_selftest_and_seeds if tier == "thorough" else check_with_selftest, tier, seed)
 
 
